@@ -99,7 +99,7 @@ static void maybe_delay(long pnum, int site)
 }
 
 /* pivot log (trace & 2): one record per p?gstrf_pivotL call */
-typedef struct { long j, usepr, old, diag, ncand, piv, usepr_out; double thresh; long *rows; REAL *vals; } pivrec_t;
+typedef struct { long j, usepr, old, diag, ncand, piv, usepr_out, pn; double thresh; long *rows; REAL *vals; } pivrec_t;
 static pivrec_t *pivlog; static long npiv, cappiv;
 static __thread pivrec_t tl_piv;
 
@@ -120,7 +120,7 @@ static void verif_cb(int ev, long pnum, long a, long b, long c, const void *p)
         break;
     case SLU_VEV_PIVOT_OUT:
         if (cur_case && (cur_case->trace & 2) && tl_piv.rows) {
-            tl_piv.piv = b; tl_piv.usepr_out = c; tl_piv.thresh = p ? (double) *(const REAL *) p : -1.0;
+            tl_piv.piv = b; tl_piv.usepr_out = c; tl_piv.pn = pnum; tl_piv.thresh = p ? (double) *(const REAL *) p : -1.0;
             pthread_mutex_lock(&evmu);
             if (npiv == cappiv) { cappiv = cappiv ? 2 * cappiv : 1024; pivlog = (pivrec_t *) realloc(pivlog, cappiv * sizeof(pivrec_t)); }
             pivlog[npiv++] = tl_piv;
@@ -226,8 +226,8 @@ static void cb_print(case_t *c)
         printf("\"pivots\":[");
         for (i = 0; i < npiv; ++i) {
             pivrec_t *r = &pivlog[i];
-            printf("%s{\"j\":%ld,\"usepr\":%ld,\"old\":%ld,\"diag\":%ld,\"piv\":%ld,\"usepr_out\":%ld,\"thresh\":\"%a\",\"rows\":[", i ? "," : "",
-                   r->j, r->usepr, r->old, r->diag, r->piv, r->usepr_out, r->thresh);
+            printf("%s{\"pn\":%ld,\"j\":%ld,\"usepr\":%ld,\"old\":%ld,\"diag\":%ld,\"piv\":%ld,\"usepr_out\":%ld,\"thresh\":\"%a\",\"rows\":[", i ? "," : "",
+                   r->pn, r->j, r->usepr, r->old, r->diag, r->piv, r->usepr_out, r->thresh);
             for (k = 0; k < r->ncand; ++k) printf("%s%ld", k ? "," : "", r->rows[k]);
             printf("],\"vals\":[");
             for (k = 0; k < r->ncand * NCOMP; ++k) printf("%s\"%a\"", k ? "," : "", (double) r->vals[k]);
